@@ -125,7 +125,7 @@ fn files(ctx: &Ctx) -> Vec<File> {
     seed[..8].copy_from_slice(&ctx.seed.to_le_bytes());
     seed[8] = 0x11;
     let mut runner = TestRunner::new_with_rng(Config::default(), TestRng::from_seed(RngAlgorithm::ChaCha, &seed));
-    let (ngen, maxlen) = ctx.pick((10usize, 4096usize), (120usize, 65536usize));
+    let (ngen, maxlen) = ctx.pick((160usize, 6000usize), (400usize, 65536usize));
     let mut tries = 0;
     while v.len() < 8 + ngen && tries < ngen * 4 {
         tries += 1;
